@@ -380,10 +380,25 @@ func sameLog(a, b modResult) bool {
 	return true
 }
 
+func sameLogMode(a, b modResult, unordered bool) bool {
+	if !unordered {
+		return sameLog(a, b)
+	}
+	x := modResult{Log: append([]string{}, a.Log...)}
+	y := modResult{Log: append([]string{}, b.Log...)}
+	sort.Strings(x.Log)
+	sort.Strings(y.Log)
+	return sameLog(x, y)
+}
+
 type buildCase struct {
-	desc    map[string]interface{}
-	inJobs  []modJob
-	outJobs []modJob
+	// with code splitting the modules of a graph may be evaluated in another order than the
+	// input's import order (shared chunks are imported first): that is about evaluation order,
+	// not about bindings; every probe has its own tag, so the logs are compared as multisets
+	unordered bool
+	desc      map[string]interface{}
+	inJobs    []modJob
+	outJobs   []modJob
 }
 
 func runModuleJobs(dir string, jobs []modJob) []modResult {
@@ -617,6 +632,7 @@ func runBuildCases(r *Rng, n int, st *Stats, feat map[string]int) {
 			bc.inJobs = append(bc.inJobs, modJob{Kind: "esm", Path: inPath, Exports: withExports})
 			bc.outJobs = append(bc.outJobs, modJob{Kind: kind, Path: filepath.Join(cdir, "out", strings.TrimSuffix(e, ".mjs")+ext), Exports: withExports})
 		}
+		bc.unordered = opts.Splitting
 		cases = append(cases, bc)
 		jobs = append(jobs, bc.inJobs...)
 		jobs = append(jobs, bc.outJobs...)
@@ -638,7 +654,7 @@ func runBuildCases(r *Rng, n int, st *Stats, feat map[string]int) {
 				invalid = true
 			}
 			probes += len(ins[e].Log)
-			if !sameLog(ins[e], outs[e]) && bad == "" {
+			if !sameLogMode(ins[e], outs[e], bc.unordered) && bad == "" {
 				bad = firstDiff(NodeResult{Log: ins[e].Log, Error: ins[e].Error}, NodeResult{Log: outs[e].Log, Error: outs[e].Error})
 			}
 		}
@@ -653,7 +669,7 @@ func runBuildCases(r *Rng, n int, st *Stats, feat map[string]int) {
 			again := runModuleJobs(dir, append(append([]modJob{}, bc.inJobs...), bc.outJobs...))
 			still := false
 			for e := 0; e < ne; e++ {
-				if !sameLog(again[e], again[ne+e]) {
+				if !sameLogMode(again[e], again[ne+e], bc.unordered) {
 					still = true
 				}
 			}
